@@ -7,9 +7,12 @@
 From C13 Require Export Model.
 Open Scope N_scope.
 
+(* a function cell of S holds the value itself (M goes through Lambda objects) *)
+Record sfuninfo := { sf_pkg : pkgid; sf_val : Z; sf_export : bool }.
+
 Record sstate := {
   s_vheap : addr -> option varval;
-  s_fheap : addr -> option funinfo;
+  s_fheap : addr -> option sfuninfo;
   own_v : pkgid -> name -> option addr;
   own_f : pkgid -> name -> option addr;
   s_vnext : addr;
@@ -22,7 +25,7 @@ Definition sinit (p0 : pkgid) : sstate :=
      s_vnext := 0; s_fnext := 0; s_uses := fun _ => []; s_cur := p0 |}.
 
 Definition s_vexp (s : sstate) (a : addr) : bool := match s_vheap s a with Some vv => vv_export vv | None => false end.
-Definition s_fexp (s : sstate) (a : addr) : bool := match s_fheap s a with Some fi => fi_export fi | None => false end.
+Definition s_fexp (s : sstate) (a : addr) : bool := match s_fheap s a with Some fi => sf_export fi | None => false end.
 
 (* first used package with an exported own cell *)
 Fixpoint inherited {A} (own : pkgid -> name -> option A) (exp : A -> bool) (us : list pkgid) (n : name) : option A :=
@@ -53,7 +56,7 @@ Definition set_vexp (s : sstate) (a : addr) (e : bool) : sstate :=
 Definition set_fexp (s : sstate) (a : addr) (e : bool) : sstate :=
   match s_fheap s a with
   | Some fi => {| s_vheap := s_vheap s;
-                  s_fheap := upd (s_fheap s) a (Some {| fi_pkg := fi_pkg fi; fi_val := fi_val fi; fi_export := e |});
+                  s_fheap := upd (s_fheap s) a (Some {| sf_pkg := sf_pkg fi; sf_val := sf_val fi; sf_export := e |});
                   own_v := own_v s; own_f := own_f s; s_vnext := s_vnext s; s_fnext := s_fnext s;
                   s_uses := s_uses s; s_cur := s_cur s |}
   | None => s end.
@@ -102,13 +105,13 @@ Definition sstep (s : sstate) (o : op) : sstate :=
       | Some a =>
           match s_fheap s a with
           | Some fi => {| s_vheap := s_vheap s;
-                          s_fheap := upd (s_fheap s) a (Some {| fi_pkg := fi_pkg fi; fi_val := v; fi_export := fi_export fi |});
+                          s_fheap := upd (s_fheap s) a (Some {| sf_pkg := sf_pkg fi; sf_val := v; sf_export := sf_export fi |});
                           own_v := own_v s; own_f := own_f s; s_vnext := s_vnext s; s_fnext := s_fnext s;
                           s_uses := s_uses s; s_cur := s_cur s |}
           | None => s end
       | None =>
           {| s_vheap := s_vheap s;
-             s_fheap := upd (s_fheap s) (s_fnext s) (Some {| fi_pkg := s_cur s; fi_val := v; fi_export := false |});
+             s_fheap := upd (s_fheap s) (s_fnext s) (Some {| sf_pkg := s_cur s; sf_val := v; sf_export := false |});
              own_v := own_v s; own_f := upd2 (own_f s) (s_cur s) n (Some (s_fnext s));
              s_vnext := s_vnext s; s_fnext := s_fnext s + 1; s_uses := s_uses s; s_cur := s_cur s |}
       end
@@ -142,7 +145,7 @@ Definition sq_var_q (s : sstate) (p : pkgid) (n : name) (private : bool) : qres 
 Definition sq_fun (s : sstate) (c p : pkgid) (n : name) (private : bool) : qres :=
   match resolve_f s p n with
   | Some a => match s_fheap s a with
-              | Some fi => if private || fi_export fi || N.eqb c (fi_pkg fi) then QVal (fi_val fi) else QUnbound
+              | Some fi => if private || sf_export fi || N.eqb c (sf_pkg fi) then QVal (sf_val fi) else QUnbound
               | None => QUnbound end
   | None => QUnbound
   end.
@@ -201,7 +204,7 @@ Section Guard.
          | Some a => match s_vheap s a with Some vv => match vv_pkg vv with Some _ => true | None => false end | None => false end
          | None => opt_addr_eqb (resolve_v s p n) None end) &&
         (match own_f s p n with
-         | Some a => match s_fheap s a with Some fi => N.eqb (fi_pkg fi) p | None => false end
+         | Some a => match s_fheap s a with Some fi => N.eqb (sf_pkg fi) p | None => false end
          | None => opt_addr_eqb (resolve_f s p n) None end)
     | OSetq n _ | ODefvar n _ =>
         (* every user of the current package already sees the cell being set (SetIfHas pushes it) *)
